@@ -7,6 +7,7 @@ package harness
 import (
 	"fmt"
 	abci "github.com/cometbft/cometbft/abci/types"
+	authtypes "github.com/cosmos/cosmos-sdk/x/auth/types"
 	"math/rand"
 	"os"
 	"strings"
@@ -626,7 +627,22 @@ func bankMoves(evs []abciEvent) [][]string {
 }
 
 // emitBlock delivers the txs in one block and writes its `hist.step` line; false when the block itself failed.
+var debugAt int64 = -1
+var debugT *testing.T
+
 func emitBlock(w *World, out *Out, hi int, txs []*histTx, dt time.Duration, stats map[string]int) bool {
+	if debugAt >= 0 && w.App.LastBlockHeight()+1 >= debugAt-1 && w.App.LastBlockHeight()+1 <= debugAt {
+		ctx := w.Ctx()
+		debugT.Logf("before block %d: feeCollector=%s", w.App.LastBlockHeight()+1, w.App.BankKeeper.GetAllBalances(ctx, authtypes.NewModuleAddress("fee_collector")))
+		for _, p := range w.App.AmmKeeper.GetAllPool(ctx) {
+			debugT.Logf("   pool %d revenue=%s treasury=%s", p.PoolId, w.App.BankKeeper.GetAllBalances(ctx, ammtypes.NewPoolRevenueAddress(p.PoolId)), w.App.BankKeeper.GetAllBalances(ctx, sdk.MustAccAddressFromBech32(p.RebalanceTreasury)))
+		}
+		debugT.Logf("   perp module=%s masterchef=%s", w.App.BankKeeper.GetAllBalances(ctx, authtypes.NewModuleAddress("perpetual")), w.App.BankKeeper.GetAllBalances(ctx, authtypes.NewModuleAddress("masterchef")))
+		for _, e := range w.App.MasterchefKeeper.GetAllExternalIncentives(ctx) {
+			debugT.Logf("   external incentive %+v", e)
+		}
+	}
+
 	var reqs []TxReq
 	for _, x := range txs {
 		reqs = append(reqs, x.req)
@@ -725,9 +741,31 @@ func runHist(t *testing.T, seed int64, n int, out *Out) {
 		}
 		out.Line(J{"t": "hist.begin", "id": hi, "seed": hseed, "names": w.Names, "pools": pools, "obs": w.Observe()})
 		stats := map[string]int{}
+		faults := os.Getenv("VERIF_FAULTS") != ""
+		outage := 0 // blocks left without price feeds
 		for b := 0; b < n; b++ {
 			var txs []*histTx
-			if h.r.Intn(5) == 0 {
+			faultNote := ""
+			if faults && outage == 0 && h.r.Intn(12) == 0 {
+				// oracle outage: some or all prices vanish for k blocks (feeder down; entries removed as expiry would)
+				outage = 1 + h.r.Intn(6)
+				which := [][]string{{"ATOM"}, {"ELYS"}, {"USDC"}, {"ATOM", "ELYS", "USDC"}, {"ATOM", "USDC"}}[h.r.Intn(5)]
+				w.Seed(func(ctx sdk.Context) {
+					for _, p := range w.App.OracleKeeper.GetAllPrice(ctx) {
+						if contains(which, p.Asset) {
+							w.App.OracleKeeper.RemovePrice(ctx, p.Asset, p.Source, p.Timestamp)
+						}
+					}
+				})
+				faultNote = "oracle-outage:" + strings.Join(which, "+")
+				stats["fault/"+faultNote]++
+			}
+			if outage > 0 {
+				outage--
+				if outage == 0 {
+					txs = append(txs, h.priceTxFixed()) // feeder back
+				}
+			} else if h.r.Intn(5) == 0 {
 				txs = append(txs, h.priceTx())
 			}
 			k := 1
@@ -743,6 +781,12 @@ func runHist(t *testing.T, seed int64, n int, out *Out) {
 				}
 			}
 			dt := []time.Duration{5 * time.Second, 5 * time.Second, 6 * time.Second, time.Minute, time.Hour, 2 * time.Hour}[h.r.Intn(6)]
+			if faults && h.r.Intn(10) == 0 {
+				// long gaps between blocks: many epochs at once, every price expired
+				dt = []time.Duration{25 * time.Hour, 72 * time.Hour, 40 * 24 * time.Hour, 400 * 24 * time.Hour}[h.r.Intn(4)]
+				stats["fault/gap"]++
+			}
+			_ = faultNote
 			if !emitBlock(w, out, hi, txs, dt, stats) {
 				break
 			}
